@@ -1,10 +1,18 @@
 #!/bin/bash
 # Build every harness group offline from files on disk (run once after a fresh restore).
+# Each group is built separately so that one group failing to build does not block the others;
+# every ./check invocation rebuilds its own group anyway.
 set -u
 ROOT="$(cd "$(dirname "$0")" && pwd)"
 export CARGO_NET_OFFLINE=true
 export CARGO_TARGET_DIR="${VERIF_TARGET_DIR:-$ROOT/target}"
 export RUSTFLAGS="--cfg libp2p_verif"
 mkdir -p "$CARGO_TARGET_DIR" "$ROOT/evidence" "$ROOT/runs"
-cd "$ROOT/harness" && cargo build --offline --profile vrel --workspace 2>&1 | tail -5
-exit ${PIPESTATUS[0]}
+cd "$ROOT/harness" || exit 1
+fail=0
+for g in vmon vnet vc-swarm vc-wire vc-sec vc-gossipsub vc-kad vc-proto vc-misc; do
+  if cargo build --offline --profile vrel -p "$g" >"$CARGO_TARGET_DIR/setup-$g.log" 2>&1; then echo "built $g"; else echo "WARN: $g failed to build (see $CARGO_TARGET_DIR/setup-$g.log)"; tail -5 "$CARGO_TARGET_DIR/setup-$g.log"; fail=1; fi
+done
+# vmon/vnet are required; group failures are reported but do not fail setup (their checks would report BUILD-FAILED)
+[ -x "$CARGO_TARGET_DIR/vrel/vc-swarm" ] || exit 1
+exit 0
